@@ -25,6 +25,12 @@ CLAIMS = {
         'note': 'Trusts the FIELD_BUFFER table (cross-checked by C08/R8.3), the may-allocate summaries (buffer ids propagated through parameters), and that compile-time arena calls act on the compiler\'s arena. Copies of a tracked pointer into struct fields are not followed.',
         'technique': 'static buffer-aware valid->stale pointer typestate with interprocedural may-allocate summaries over clang CFG facts',
     },
+    'C09': {
+        'text': 'Decides which state scan code can write and under which lock: the may-write set of every library function reachable from the public scan API (direct calls plus field/type-resolved function pointers, ~470 functions incl. all module code) contains no field of a shared rule-data record type and no mem* write over one; arena mutators are reached only on an arena created in the same function; every mutable library global is either never written in that set, written only under its recorded lock (must-hold lockset on every access to the signal-handler globals, use count decremented on every path after each increment), or listed in a frozen exception table with its reason; externals are snapshotted by value. If nothing shared is written, concurrent scans cannot interfere; schedules themselves are not explored.',
+        'design_ref': 'DESIGN.md section 4, C09 (R9.1-R9.4)',
+        'note': 'Type-based aliasing (a store through T* may touch any T; writes through integer/void* round trips other than the repo\'s macros are not seen). User callbacks, iterators and OpenSSL are outside the claim; process scanning (proc/linux.c page_size) is a listed exception.',
+        'technique': 'static effect (may-write) analysis over a pointer-resolved call graph + must-hold lockset + inc/dec pairing on clang CFG facts',
+    },
     'C12': {
         'text': 'Decides, for every constant-folding grammar action, that the folder applies the same C operator and the same operand-value guards as the VM handler of the opcode the action emits; that no compiler-layer code reads a run-time object value; that externals are looked up in the scanner-owned table; and that shortcut flags are cleared on every path that uses a string otherwise. These are necessary structural clauses of C12, decided on all sites; verdict equality itself is not decided.',
         'design_ref': 'DESIGN.md section 4, C12 (R12.1-R12.6)',
